@@ -1377,7 +1377,8 @@ def slot_overwrites(ctx, b):
         if dest is None or dest not in inits:
             probs.append((bi, sl, "replaced through mem::replace and the previous content is not taken out with assume_init"))
     for (bi, sl, how) in writes:
-        if not any(cb == bi or g.dominates(cb, bi) for cb in consumed.get(sl, [])):
+        # (a consuming call is its block's terminator: it precedes the store only if it sits in a strictly dominating block)
+        if not any(cb != bi and g.dominates(cb, bi) for cb in consumed.get(sl, [])):
             probs.append((bi, sl, "overwritten (%s) while it may still hold an initialised %s" % (how, "key" if sl == r.E_KEY else "value")))
     return probs, mentions
 
